@@ -365,6 +365,11 @@ class Check:
         return path
 
     def finish(self, level="proof", checker_cmd="", rule="", extra=None):
+        # safety net: a failed obligation must never end in a silent pass
+        failed = [n for n, ok, _ in self.obligations if not ok]
+        if failed and not self.violations:
+            self.violation({"kind": "unproved", "broken": failed, "search": "no failing input was searched for or found"},
+                           "obligation(s) no longer discharged: " + "; ".join(failed)[:300], no_input=True)
         n_ob = len(self.obligations)
         n_ok = sum(1 for o in self.obligations if o[1])
         cov = {
